@@ -1,25 +1,23 @@
 #!/venv/bin/python
-"""Development aid: apply a seeded patch to /repo, run checks, undo.  usage: seedcheck.py <patch.diff> <Cxx> [Cyy ...]"""
-import os, subprocess, sys, tempfile
+"""Development aid: run checks against a scratch copy of /repo's working tree with a seeded patch applied.
+usage: seedcheck.py <patch.diff> <Cxx> [Cyy ...]     (never touches /repo; copy removed afterwards)"""
+import os, shutil, subprocess, sys, tempfile
 patch = os.path.abspath(sys.argv[1]); props = sys.argv[2:]
-assert subprocess.run(["git", "-C", "/repo", "status", "--porcelain"], capture_output=True, text=True).stdout.strip() == "", "repo dirty"
-r = subprocess.run(["git", "-C", "/repo", "apply", patch], capture_output=True, text=True)
-if r.returncode:
-    r = subprocess.run(["git", "-C", "/repo", "apply", "--3way", patch], capture_output=True, text=True)
-if r.returncode:
-    print("PATCH DOES NOT APPLY:", r.stderr[:400]); sys.exit(3)
+td = tempfile.mkdtemp(prefix="seedchk_")
 try:
-    with tempfile.TemporaryDirectory() as td:
-        env = dict(os.environ, FLEXLINT_EVIDENCE_DIR=td)
-        for p in props:
-            r = subprocess.run(["/venv/bin/python", "-m", "flexlint", "check", p], cwd="/verif", env=env, capture_output=True, text=True)
-            lines = [l for l in r.stdout.splitlines() if "violation:" in l or l.startswith("VIOLATION") or "ANALYSIS-ERROR" in l]
-            print(f"== {p}: exit {r.returncode}")
-            for l in lines[:8]:
-                print("   ", l[:400])
-            if r.returncode == 2:
-                print(r.stdout[-800:], r.stderr[-800:])
+    shutil.copytree("/repo/src", os.path.join(td, "src"))
+    shutil.copytree("/repo/examples", os.path.join(td, "examples"))
+    r = subprocess.run(["patch", "-p1", "-s", "-f", "-d", td, "-i", patch], capture_output=True, text=True)
+    if r.returncode:
+        print("PATCH DOES NOT APPLY:", (r.stdout + r.stderr)[:400]); sys.exit(3)
+    env = dict(os.environ, FLEXLINT_EVIDENCE_DIR=os.path.join(td, "ev"), FLEXLINT_REPO=td)
+    for p in props:
+        r = subprocess.run(["/venv/bin/python", "-m", "flexlint", "check", p], cwd="/verif", env=env, capture_output=True, text=True)
+        lines = [l for l in r.stdout.splitlines() if "violation:" in l or l.startswith("VIOLATION") or "ANALYSIS-ERROR" in l]
+        print(f"== {p}: exit {r.returncode}")
+        for l in lines[:8]:
+            print("   ", l[:420])
+        if r.returncode == 2:
+            print(r.stdout[-800:], r.stderr[-800:])
 finally:
-    subprocess.run(["git", "-C", "/repo", "reset", "-q", "HEAD", "--", "."])
-    subprocess.run(["git", "-C", "/repo", "checkout", "--", "."])
-    assert subprocess.run(["git", "-C", "/repo", "status", "--porcelain"], capture_output=True, text=True).stdout.strip() == ""
+    shutil.rmtree(td, ignore_errors=True)
